@@ -232,6 +232,11 @@ fn owned_vs_borrowed(c: &CaseA, classes: &mut BTreeSet<&'static str>) -> Option<
     if !c.ops.iter().any(|op| matches!(op, Op::AllocBytes { .. } | Op::AllocAligned { .. } | Op::AllocTyped { .. })) {
         return None;
     }
+    // truncate is only legal (and only applied by the interpreter) while refs() == 1; owned handles embed arena
+    // values, so whether a truncate step applies differs between the two variants by construction
+    if c.ops.iter().any(|op| matches!(op, Op::Truncate { .. })) {
+        return None;
+    }
     let mode = crate::enga::Mode { trace: true, drop_zero_now: true, ..crate::enga::Mode::default() };
     crate::enga::set_owner(Some("C13"));
     let a = crate::enga::run_case(&CaseA { cfg: c.cfg.clone(), ops: with(false) }, mode.clone());
@@ -364,7 +369,7 @@ impl Prop for C08 {
         scale(tier, 320_000, 10_000_000)
     }
     fn rule() -> &'static str {
-        "5/6 of the cases: Engine A histories in which every owner fills its whole range with non-zero bytes right after allocation; releases via drop on top, drop not on top, explicit dealloc; rewind, discard_freelist, clear, file reopen; at the return of every alloc_bytes/alloc_bytes_owned every byte of the returned range is zero. 1/6 of the cases: Engine B programs (2-4 threads on one sync::Arena under a generated schedule, every owner writes a non-zero payload over its whole range) with the same all-zero test at every alloc_bytes return, so that ranges released by one thread and re-issued to another - through the cursor, a segment or a remainder, with a pre-emption anywhere in between - are covered. Non-trivial (A) = the returned range intersects bytes an earlier owner had set non-zero; (B) = a byte range changed owner thread"
+        "5/6 of the cases: Engine A histories in which every owner fills its whole range with non-zero bytes right after allocation; releases via drop on top, drop not on top, explicit dealloc; rewind, discard_freelist, clear, file reopen; at the return of every alloc_bytes/alloc_bytes_owned every byte of the returned range is zero; one configuration in sixteen is a large arena (70 000 - 300 000 bytes: buffers of tens of pages released and re-issued). 1/6 of the cases: Engine B programs (2-4 threads on one sync::Arena under a generated schedule, every owner writes a non-zero payload over its whole range) with the same all-zero test at every alloc_bytes return, so that ranges released by one thread and re-issued to another - through the cursor, a segment or a remainder, with a pre-emption anywhere in between - are covered. Non-trivial (A) = the returned range intersects bytes an earlier owner had set non-zero; (B) = a byte range changed owner thread"
     }
     fn assumptions() -> Vec<&'static str> {
         let mut v = <C08A as Prop>::assumptions();
